@@ -63,6 +63,8 @@ def run(ck):
   for fid, bes in G.FIXED_STREAMS.items():           # shapes of repaired defects (F15, F16, F16b, F18, F19): clean now
     if BE in bes:
       for k in range(cfg['finding_each']): corpus.append(G.gen_fixed(random.Random(rng.getrandbits(64)), BE, fid))
+  # ---- histories: several instances of one class elaborated in one process before each is translated (repaired F41)
+  for k in range(cfg['finding_each'] + 1): corpus += G.gen_history(random.Random(rng.getrandbits(64)), BE)
   U.run_batch(ck, BE, corpus, stats, cfg['ncycles'] + 2, cfg['nstores'])
   # ---- labelled streams of the known findings
   fd = [dict(w) for w in K.WITNESSES if BE in w['backends']]      # canonical witnesses first, then randomised instances
@@ -90,6 +92,7 @@ def replay(ck, data):
   if 'src' not in case:
     print('replay needs the source text of the design'); return 1
   d = {'src': case['src'], 'label': case.get('label', 'replay'), 'cycles': case.get('cycles'), 'features': []}
+  if case.get('history'): d['history'], d['pick'] = case['history'], case['pick']
   if d['cycles'] is None: d.pop('cycles')      # (a 'sim_src' entry of older replay files is ignored: the design is simulated as written)
   stats = {}
   be = case.get('backend', BE)
